@@ -80,6 +80,8 @@ pub struct Batch {
     pub canary_ok: bool,
     pub stderr: String,
     pub failed: Option<String>,
+    /// the script never returned from a completion call (killed at the horizon)
+    pub hung: bool,
 }
 
 /// Run all queries against `script` in one bash.  `cmd` is the completed command's name.
@@ -114,7 +116,9 @@ pub fn run_batch(script: &[u8], cmd: &str, probes: &[ProbeDef], queries: &[Query
     let log_p = scratch.path("probe.log");
     let err_p = scratch.path("stderr.log");
     let _ = std::fs::remove_file(&err_p);
-    let out = Command::new("bash")
+    let out_p = scratch.path("driver.stdout");
+    let err2_p = scratch.path("driver.stderr");
+    let spawn = Command::new("bash")
         .arg("--noprofile")
         .arg("--norc")
         .arg(&driver_p)
@@ -131,14 +135,42 @@ pub fn run_batch(script: &[u8], cmd: &str, probes: &[ProbeDef], queries: &[Query
         .env("CG_IGNORE_CASE", if IGNORE_CASE.with(|c| c.get()) { "1" } else { "" })
         .current_dir(&dir)
         .stdin(Stdio::null())
-        .output();
-    let out = match out {
-        Ok(o) => o,
+        .stdout(std::fs::File::create(&out_p).unwrap())
+        .stderr(std::fs::File::create(&err2_p).unwrap())
+        .spawn();
+    let mut child = match spawn {
+        Ok(c) => c,
         Err(e) => {
             eprintln!("machinery: cannot run bash: {e}");
             std::process::exit(2);
         }
     };
+    // generous horizon: a completion call takes ~20 ms; a script that loops forever must not
+    // hang the check
+    let horizon = std::time::Duration::from_secs(120 + queries.len() as u64);
+    let start = std::time::Instant::now();
+    let mut hung = false;
+    let status = loop {
+        match child.try_wait() {
+            Ok(Some(st)) => break Some(st),
+            Ok(None) => {
+                if start.elapsed() > horizon {
+                    let _ = child.kill();
+                    let _ = child.wait();
+                    hung = true;
+                    break None;
+                }
+                std::thread::sleep(std::time::Duration::from_millis(5));
+            }
+            Err(_) => break None,
+        }
+    };
+    struct Out {
+        stdout: Vec<u8>,
+        stderr: Vec<u8>,
+        status: Option<std::process::ExitStatus>,
+    }
+    let out = Out { stdout: std::fs::read(&out_p).unwrap_or_default(), stderr: std::fs::read(&err2_p).unwrap_or_default(), status };
     let text = String::from_utf8_lossy(&out.stdout).to_string();
     let mut stderr = String::from_utf8_lossy(&out.stderr).to_string();
     if let Ok(s) = std::fs::read_to_string(&err_p) {
@@ -179,10 +211,13 @@ pub fn run_batch(script: &[u8], cmd: &str, probes: &[ProbeDef], queries: &[Query
         i += 1;
     }
     if answers.len() != queries.len() && failed.is_none() {
-        failed = Some(format!("{} answers for {} queries (bash status {:?})", answers.len(), queries.len(), out.status.code()));
+        failed = Some(format!("{} answers for {} queries (bash status {:?})", answers.len(), queries.len(), out.status.and_then(|s| s.code())));
+    }
+    if hung {
+        failed = Some(format!("bash did not finish within {} s; it was answering query {} of {}", horizon.as_secs(), answers.len() + 1, queries.len()));
     }
     let _ = std::fs::remove_dir_all(&dir);
-    Batch { answers, canary_ok, stderr, failed }
+    Batch { answers, canary_ok, stderr, failed, hung }
 }
 
 pub fn sh_single_quote(s: &str) -> String {
